@@ -218,13 +218,13 @@ def check_friedel(case, ctx):
     neg = np.array([idx.get((-h, -k, -l), -1) for (h, k, l) in idx], int)
     if (neg < 0).any():
         j = int(np.flatnonzero(neg < 0)[0])
-        raise Violation(f"reflection {tuple(hkl[j])} is kept but its negative is not for {case}", ("friedel", "missing_negative"))
+        raise Violation(f"reflection {tuple(int(v) for v in hkl[j])} is kept but its negative is not for {case}", ("friedel", "missing_negative"))
     scale = float(np.abs(F).max())
     err = np.abs(F[neg] - np.conj(F))
     if not float(err.max()) <= 1e-5 * scale:
         j = int(err.argmax())
         raise Violation(
-            f"F(-h) != conj F(h) at h={tuple(hkl[j])}: {F[neg[j]]} vs {F[j]} (rel {err.max() / scale:.2e}) for {case}",
+            f"F(-h) != conj F(h) at h={tuple(int(v) for v in hkl[j])}: {F[neg[j]]} vs {F[j]} (rel {err.max() / scale:.2e}) for {case}",
             ("friedel", "not_hermitian"),
         )
 
@@ -252,7 +252,7 @@ def check_centering(case, ctx):
         if not worst <= 2e-5 * scale:
             j = int(np.flatnonzero(~allowed)[np.abs(F_p[~allowed]).argmax()])
             raise Violation(
-                f"reflection {tuple(hkl_p[j])} forbidden by {true_centering} centring has |F|/max|F| = {worst / scale:.2e} for {case}",
+                f"reflection {tuple(int(v) for v in hkl_p[j])} forbidden by {true_centering} centring has |F|/max|F| = {worst / scale:.2e} for {case}",
                 ("centering", "forbidden_nonzero", true_centering),
             )
     declared = case["declared"]
@@ -360,6 +360,6 @@ def check_translation(case, ctx):
     if not float(err.max()) <= 1e-4 * scale:
         j = int(err.argmax())
         raise Violation(
-            f"F{tuple(hkl0[j])} changes by {err.max() / scale:.2e} (relative to max|F|) under the lattice translation {case['shift']} for {case}",
+            f"F{tuple(int(v) for v in hkl0[j])} changes by {err.max() / scale:.2e} (relative to max|F|) under the lattice translation {case['shift']} for {case}",
             ("translation", "values"),
         )
